@@ -353,6 +353,117 @@ inline RM sym_from_spectrum(const LM& Q, const std::vector<ld>& lam)
 // (operator=, +=, -=, element writes, Assign, Resize, Delete_Row/Column, copy construction) while a reference model (RM) receives the same
 // mutations; after every step read-only queries on the used object are compared with the definitions evaluated on the model.  A cached or
 // memoised quantity that is not invalidated by one of the mutating spellings shows up as a mismatch.
+// The same for Vector: default construction, Resize (keeps the leading components, new ones are zero), Assign, element writes, +=, -=, *=, /= by a
+// scalar, copies; after every step size, components, Norm and Dot with itself are compared with a std::vector<double> model.
+inline void vector_history_case(vf::Rng& rng)
+{
+	using namespace vf;
+	struct VObj
+	{
+		libphysica::Vector v;
+		std::vector<double> ref;
+	};
+	std::vector<VObj> pool;
+	pool.push_back({libphysica::Vector(), std::vector<double>(3, 0.0)});   // the default vector has three zero components
+	std::string trail = "default";
+	for(int step = 0; step < 30; step++)
+	{
+		size_t oi = rng.below(pool.size());
+		int op	  = rng.irange(0, 7);
+		char tag[48];
+		switch(op)
+		{
+			case 0: {
+				unsigned n = (unsigned) rng.irange(1, 8);
+				pool[oi].v.Resize(n);
+				pool[oi].ref.resize(n, 0.0);
+				snprintf(tag, sizeof tag, " Resize(%u)", n);
+				break;
+			}
+			case 1: {
+				unsigned n = (unsigned) rng.irange(1, 8);
+				double e   = rng.normal();
+				pool[oi].v.Assign(n, e);
+				pool[oi].ref.assign(n, e);
+				snprintf(tag, sizeof tag, " Assign(%u)", n);
+				break;
+			}
+			case 2: {
+				size_t k = rng.below(pool[oi].ref.size());
+				double e = rng.normal();
+				pool[oi].v[k] = e, pool[oi].ref[k] = e;
+				snprintf(tag, sizeof tag, " [%zu]=", k);
+				break;
+			}
+			case 3: {
+				std::vector<double> w(pool[oi].ref.size());
+				for(auto& x : w)
+					x = rng.normal();
+				bool plus = rng.coin();
+				if(plus)
+					pool[oi].v += libphysica::Vector(w);
+				else
+					pool[oi].v -= libphysica::Vector(w);
+				for(size_t i = 0; i < w.size(); i++)
+					pool[oi].ref[i] = plus ? pool[oi].ref[i] + w[i] : pool[oi].ref[i] - w[i];
+				snprintf(tag, sizeof tag, plus ? " +=" : " -=");
+				break;
+			}
+			case 4: {
+				std::vector<double> w((size_t) rng.irange(1, 8));
+				for(auto& x : w)
+					x = rng.normal();
+				pool[oi].v = libphysica::Vector(w), pool[oi].ref = w;
+				snprintf(tag, sizeof tag, " =new(%zu)", w.size());
+				break;
+			}
+			case 5: {
+				size_t src = rng.below(pool.size());
+				VObj c {libphysica::Vector(pool[src].v), pool[src].ref};
+				if(pool.size() < 4)
+					pool.push_back(c);
+				else
+					pool[oi] = c;
+				snprintf(tag, sizeof tag, " copy");
+				break;
+			}
+			case 6: {
+				size_t src = rng.below(pool.size());
+				if(src != oi)
+				{
+					pool[oi].v = pool[src].v, pool[oi].ref = pool[src].ref;
+				}
+				snprintf(tag, sizeof tag, " assign");
+				break;
+			}
+			default: {
+				libphysica::Vector d(3);
+				pool[oi].v = d, pool[oi].ref.assign(3, 0.0);
+				snprintf(tag, sizeof tag, " =Vector(3)");
+				break;
+			}
+		}
+		if(trail.size() < 300)
+			trail += tag;
+		const VObj& q = pool[rng.coin(0.7) ? oi : rng.below(pool.size())];
+		auto hj = [&] { return J().i("step", step).str("history", trail).vec("model", q.ref); };
+		bool size_ok = q.v.Size() == q.ref.size();
+		require("vector-history-size-follows-the-mutations", size_ok, [&] { return hj().i("Size", (long long) q.v.Size()); });
+		if(!size_ok)
+			return;
+		bool same = true;
+		ld n2 = 0;
+		for(size_t i = 0; i < q.ref.size(); i++)
+		{
+			same = same && same_bits(q.v[(unsigned) i], q.ref[i]);
+			n2 += (ld) q.ref[i] * q.ref[i];
+		}
+		require("vector-history-components-follow-the-mutations", same, [&] { return hj().vec("components", from_lib(q.v)); });
+		judge("vector-history-norm", std::fabs(q.v.Norm() - (double) sqrtl(n2)), 8 * (q.ref.size() + 2) * EPS * (double) sqrtl(n2) + 1e-300, [&] { return hj().d("Norm", q.v.Norm()); });
+		judge("vector-history-dot", std::fabs(q.v.Dot(q.v) - (double) n2), 8 * (q.ref.size() + 2) * EPS * (double) n2 + 1e-300, [&] { return hj().d("Dot", q.v.Dot(q.v)); });
+	}
+}
+
 inline void matrix_history_case(vf::Rng& rng, uint64_t index, bool inverse_queries)
 {
 	using namespace vf;
